@@ -84,6 +84,9 @@ def make_apk(m, utf8=False):
     return bio.getvalue()
 
 
+_ORDER = [0]
+
+
 def observe(apkmod, raw):
     a = apkmod.APK(raw, raw=True)
 
@@ -92,11 +95,19 @@ def observe(apkmod, raw):
             return int(x)
         except (TypeError, ValueError):
             return 0
-    return dict(package=a.get_package() or "", vcode=a.get_androidversion_code() or "", vname=a.get_androidversion_name() or "",
-                permissions=sorted(a.get_permissions()), uses=[[n, (mx or 0)] for n, mx in a.uses_permissions],
-                activities=list(a.get_activities()), services=list(a.get_services()), receivers=list(a.get_receivers()), providers=list(a.get_providers()),
-                main=a.get_main_activity() or "", minsdk=num(a.get_min_sdk_version()), target=num(a.get_target_sdk_version()), maxsdk=num(a.get_max_sdk_version()),
-                effective=a.get_effective_target_sdk_version(), features=list(a.get_features()), libraries=list(a.get_libraries()))
+    qs = [("package", lambda: a.get_package() or ""), ("vcode", lambda: a.get_androidversion_code() or ""), ("vname", lambda: a.get_androidversion_name() or ""),
+          ("permissions", lambda: sorted(a.get_permissions())), ("uses", lambda: [[n, (mx or 0)] for n, mx in a.uses_permissions]),
+          ("activities", lambda: list(a.get_activities())), ("services", lambda: list(a.get_services())), ("receivers", lambda: list(a.get_receivers())),
+          ("providers", lambda: list(a.get_providers())), ("main", lambda: a.get_main_activity() or ""), ("minsdk", lambda: num(a.get_min_sdk_version())),
+          ("target", lambda: num(a.get_target_sdk_version())), ("maxsdk", lambda: num(a.get_max_sdk_version())),
+          ("effective", lambda: a.get_effective_target_sdk_version()), ("features", lambda: list(a.get_features())), ("libraries", lambda: list(a.get_libraries()))]
+    # every accessor is the first one asked on some of the archives (the answers must not depend on what was asked before)
+    k = _ORDER[0] % len(qs)
+    _ORDER[0] += 5
+    out = {}
+    for name, q in qs[k:] + qs[:k]:
+        out[name] = q()
+    return out
 
 
 def to_py(v):
